@@ -359,7 +359,8 @@ def run_case(case):
                 items = assign.get(n, [])
                 d = {}
                 for key, v in items:
-                    if key in by or not isinstance(key, str) or not key.isidentifier():
+                    # (a keyword spelled like a positional-only parameter is an ordinary extra keyword for Python)
+                    if (key in by and by[key]["kind"] != "posonly") or not isinstance(key, str) or not key.isidentifier():
                         raise HarnessError("bad extra keyword")
                     vv = codec.decode(v)
                     r = parse_one(T[p["ann"]], vv)
@@ -592,7 +593,7 @@ def cases(draw):
             if not keyword_mode:
                 assign[n] = draw(st.lists(st.sampled_from(VALS[p["ann"]]), max_size=3))
         elif k == "varkw":
-            keys = draw(st.lists(st.sampled_from(["x1", "x2", "zz"]), max_size=2, unique=True))
+            keys = draw(st.lists(st.sampled_from(["x1", "x2", "zz"] + [q["name"] for q in params if q["kind"] == "posonly"]), max_size=2, unique=True))
             assign[n] = [[key, draw(st.sampled_from(VALS[p["ann"]]))] for key in keys]
         else:
             provide = not p.get("default") or draw(st.booleans())
